@@ -52,6 +52,7 @@ type Backend struct {
 	once    sync.Once
 
 	OnHandOver func(rec OnMsgRec) // called synchronously from OnMsg
+	IgnoreCtx  bool               // KeyGen/Sign return only when released (models a back end that outlives its context)
 }
 
 func NewBackend(id uint16) *Backend {
@@ -88,6 +89,10 @@ func (b *Backend) OnMsg(msg []byte, from uint16, broadcast bool) {
 
 func (b *Backend) run(ctx context.Context) ([]byte, error) {
 	b.once.Do(func() { close(b.Started) })
+	if b.IgnoreCtx {
+		r := <-b.Release
+		return r.Data, r.Err
+	}
 	select {
 	case r := <-b.Release:
 		return r.Data, r.Err
